@@ -319,18 +319,45 @@ def check_paths(ob, st: Structure, sib: Siblings, paths: List[BodyPath], r: int)
     merges = 0
     copy_seen = False
     current = sib.cell
+    from .absint import subst_value as _subst
+
+    def same_symbol(v):
+        # a guard such as `A != 0` narrows the range of the position symbol; the narrowed symbol is the same quantity
+        for _ in range(4):
+            lins = [v] if isinstance(v, Lin) else ([v.left, v.right] if isinstance(v, CondV) else [])
+            narrowed = [sy for l in lins for sy in l.syms() if sy.name == sib.A.name and sy.key != sib.A.key]
+            if not narrowed:
+                break
+            v = _subst(v, narrowed[0], sib.A)
+        return v
     for p in paths:
+        p.appended = [same_symbol(x) for x in p.appended]
+        p.conds = [(same_symbol(c), t) for c, t in p.conds]
         pc = " and ".join(f"{'' if t else 'not '}{c}" for c, t in p.conds) or "unconditional"
+        # a path on which the sibling position is known to be 0 sees the cell with that value filled in
+        at_zero = any(cond_is_position_zero(c, t, sib.A) is True for c, t in p.conds)
+        cell_here = sib.cell
+        if at_zero:
+            for sy in [sy for sy in cell_here.syms() if sy.name == sib.A.name]:
+                cell_here = _subst(cell_here, sy, 0)
+        current = cell_here
         if p.signal not in (None, ("continue",)):
             kind = p.signal[0]
             if kind == "raise":
-                ob("C08.1", f"{tag}: raises {p.signal[1]}", core.VIOLATED, where, f"path [{pc}]")
+                lost = any(c.left.has_opaque(True) or c.right.has_opaque(True) for c, _t in p.conds)
+                ob("C08.1", f"{tag}: raises {p.signal[1]}", core.UNDECIDED if lost else core.VIOLATED, where,
+                   f"path [{pc}]" + (" -- on a condition the analysis does not model" if lost else ""))
             else:
                 ob("C08.1", f"{tag}: leaves the scan by `{kind}`", core.UNDECIDED, where, f"path [{pc}]")
             continue
         for e in p.effects:
             if e[0] == "mutates-input":
                 ob("C08.6", f"{tag}: `{e[1]}` modifies a list in place", core.VIOLATED, where, f"path [{pc}]")
+        lost = [f"{'' if t else 'not '}{c}" for c, t in p.conds if (c.left.has_opaque(True) or c.right.has_opaque(True))]
+        if lost:
+            ob("C08.1", f"{tag}: a path of the scan depends on a condition the analysis does not model", core.UNDECIDED, where,
+               f"{lost[:2]}: what this path emits and consumes is not judged")
+            continue
         if len(p.appended) == 0 and isinstance(p.advance, Lin) and p.advance.is_const() and p.advance.const == 1 and \
                 any((_sibling_equation(c, t) or (None, None))[0] == -1 and (_sibling_equation(c, t)[1] - current).is_const()
                     and (_sibling_equation(c, t)[1] - current).const == 0 for c, t in p.conds):
@@ -344,7 +371,7 @@ def check_paths(ob, st: Structure, sib: Siblings, paths: List[BodyPath], r: int)
                 ob("C08.1", f"{tag}: effect of the iteration not determined", core.UNDECIDED, where, f"appended {p.appended}, advance {p.advance}; path [{pc}]")
             continue
         x, adv = p.appended[0], p.advance.const
-        if x == sib.cell:
+        if x == sib.cell or x == cell_here:
             copy_seen = True
             if adv == 1:
                 ob("C08.1", f"{tag}: copy path emits the cell and advances by 1", core.DISCHARGED, where, f"path [{pc}]")
@@ -357,14 +384,19 @@ def check_paths(ob, st: Structure, sib: Siblings, paths: List[BodyPath], r: int)
             continue
         # ---- merge path --------------------------------------------------------------------------------
         merges += 1
-        opaque = [f"{'' if t else 'not '}{c}" for c, t in p.conds if (c.left.has_opaque() or c.right.has_opaque())]
+        opaque = [f"{'' if t else 'not '}{c}" for c, t in p.conds if (c.left.has_opaque(True) or c.right.has_opaque(True))]
         if opaque:
             ob("C08.2", f"{tag}: merge guarded by a condition the analysis does not model", core.UNDECIDED, where,
                f"{opaque[:2]}: whether this path merges exactly a complete sibling group is not decided")
             continue
+        first = [cond_is_position_zero(c, t, sib.A) for c, t in p.conds]
+        if True in first:
+            # the path condition fixes the sibling position to 0: what is emitted is judged under that condition
+            from .absint import subst_value
+            for sy in [sy for sy in x.syms() if sy.name == sib.A.name]:
+                x = subst_value(x, sy, 0)
         stt, text = same_or_refuted(x, sib.parent, 0)
         ob("C08.1", f"{tag}: merge path emits the parent of the group", stt, where, text)
-        first = [cond_is_position_zero(c, t, sib.A) for c, t in p.conds]
         if True in first:
             ob("C08.2", f"{tag}: merge only when the cell is the first child of its parent", core.DISCHARGED, where,
                f"path condition contains `{[str(c) for (c, t), f in zip(p.conds, first) if f][0]}` (sibling position 0)")
